@@ -3,6 +3,8 @@ import AquaVerif.Drv.RainPartition
 import AquaVerif.Drv.RootZone
 import AquaVerif.Drv.WaterStress
 import AquaVerif.Drv.Drainage
+import AquaVerif.Drv.Run
+import AquaVerif.Drv.Day
 import AquaVerif.Drv.Yield
 import AquaVerif.Drv.WaterDay
 import AquaVerif.Drv.HarvestIndex
@@ -64,6 +66,8 @@ def handlers : List (String × Handler) := [
   ("water_day", hWaterDay),
   ("biomass_accumulation", hBiomassAccumulation),
   ("yield_step", hYieldStep),
+  ("full_day", hFullDay),
+  ("reset_state", hResetState),
   ("clock", hClock),
   ("clock_calls", hClockCalls),
   ("calendar", hCalendar),
